@@ -175,7 +175,7 @@ def judge(case, rep, S):
                     rep.viol("long_window_answered:" + name, "%s(%d) on %s (N=%d) answered %r instead of rejecting" % (
                         name, w, seq, N, S["np"].asarray(r).tolist()), sig={"fn": name, "excess": w - N})
             absent = [a for a in M.AA if a not in seq][:3]
-            for grps in (None, [["K", "R"], ["E"]], [[a] for a in absent] if absent else [["W"]]):
+            for grps in (None, [["K", "R"], ["E"]], [[a] for a in absent] if absent else [["W"]], []):
                 try:
                     r = obj.get_linear_sequence_composition(w) if grps is None else obj.get_linear_sequence_composition(w, grps)
                 except Exception:
